@@ -436,6 +436,34 @@ def check_escape_inverse(ck, R):
           % (esc, sorted(decoders) or "none"), ek.where())
 
 
+def check_listing_filters(ck, R):
+    """Every filter of list_keys_nonversioned is applied inside the walkers, before an entry is
+    counted against `limit`; nothing narrows the listing afterwards."""
+    ls = FA(ck, FSDS + ".list_keys_nonversioned")
+    for name, sub in ls.fi.nested.items():
+        f = FA(ck, sub)
+        counts = [s_ for s_ in f.stmts(ast.AugAssign) if isinstance(s_.target, ast.Name) and s_.target.id == "count"]
+        if not counts:
+            continue
+        for flt in ("endswith", "file_prefix"):
+            tests = [n.id for n in f.cfg.nodes if n.kind == "test" and flt in A.names_in(n.ast)]
+            ok = bool(tests) and all(f.cfg.must_pass(tests, i) for c in counts for i in f.nodes(c))
+            ck.ob(R, f.key(None, "filter-before-count:" + flt), ok, "`%s` is applied before an entry counts against the limit" % flt if ok else
+                  "in %s an entry is counted against `limit` before the `%s` filter is applied: list_mementos(limit=n) returns fewer than "
+                  "min(n, live) entries when other files (custom metadata) share the directory" % (name, flt), f.where())
+    rets = ls.returns()
+    post = []
+    for st in ls.stmts(ast.Assign):
+        if any(isinstance(t, ast.Name) and t.id == "entries" for t in st.targets):
+            v = st.value
+            if not (isinstance(v, ast.Call) and A.call_attr(v) == "list" and v.args and isinstance(v.args[0], ast.Call) and A.call_attr(v.args[0]) in ls.fi.nested):
+                post.append(st)
+    okp = not post and all(r.value is None or A.norm(r.value) == "[]" or (isinstance(r.value, ast.Call) and A.call_attr(r.value) == "sorted" and A.norm(r.value.args[0]) == "entries") for r in rets)
+    ck.ob(R, ls.key(None, "no-post-filter"), okp, "the walk result is only sorted" if okp else
+          "the listing is narrowed after the walk (`%s`): the limit was already spent on entries that are filtered out afterwards" % A.short(post[0], 60) if post else
+          "list_keys_nonversioned does not return sorted(entries)", ls.where(post[0] if post else None))
+
+
 def check_override_writes(ck, R):
     ck.rule(R, "reads return the last value written: a memoize under a key override always writes the new bytes (the "
                "'already stored, reuse it' shortcut applies to content-addressed keys only)", 2)
@@ -453,6 +481,7 @@ def check_override_writes(ck, R):
 def check(ck):
     cm = CacheModel(ck)
     check_override_writes(ck, "C05.R6")
+    check_listing_filters(ck, "C05.R5")
     check_keying(ck, "C05.R1")
     check_forget_scope(ck, cm)
     check_queries_effect_free(ck, "C05.R3")
